@@ -333,6 +333,10 @@ class Check:
         }
         with open(os.path.join(EVID, f'{self.pid}.json'), 'w') as f:
             json.dump(ev, f, indent=1, default=str)
+        names_out = os.environ.get('VF_NAMES_OUT')
+        if names_out:  # tools/gen_expected.py: full list of obligation names with their status
+            with open(names_out, 'w') as f:
+                json.dump({o.name: o.status for o in self.obls}, f)
 
 
 def run_check(pid, tier='quick', seed=0):
